@@ -503,6 +503,26 @@ theorem tableInterp1_reproduces (W gs : List G) (hg : gs.Nodup) (u go V : List G
   obtain ⟨_, hga'⟩ := List.getElem?_eq_some_iff.mp ha
   simp [List.getD_eq_getElem?_getD, ha', hga', indexOf?_eq_of_nodup gs hg i x hi]
 
+/-- the observation is a function of the LIST `grid_obs`: one entry per observation point, in the
+    order given, repeated points repeated (no sorting or de-duplication of the points) -/
+theorem tableInterp1_length (W gs u go V : List G) (h : tableInterp1 W gs u go = .ok V) :
+    V.length = go.length := by
+  simp only [tableInterp1, Except.ok.injEq] at h
+  subst h
+  simp
+
+theorem tableInterp2_shape (W : List (List G)) (gs steps : List G) (U : List (List G)) (go tobs : List G)
+    (V : List (List G)) (h : tableInterp2 W gs steps U go tobs = .ok V) :
+    V.length = go.length ∧ ∀ r ∈ V, r.length = tobs.length := by
+  simp only [tableInterp2, Except.ok.injEq] at h
+  subst h
+  constructor
+  · simp
+  · intro r hr
+    simp only [List.mem_map, List.mem_range] at hr
+    obtain ⟨a, _, rfl⟩ := hr
+    simp
+
 /-- the observation map is applied to the restricted solution, and the time axis is squeezed away
     afterwards, iff there is exactly one observation time -/
 theorem observe_map_then_squeeze (g : Grids G) (steps tobs : List G) (U : List (List G))
